@@ -331,6 +331,10 @@ func newEventFromUntrustedJSONV1(eventJSON []byte, roomVersion IRoomVersion) (PD
 		return nil, err
 	}
 
+	if err := checkUntrustedEventShape(eventJSON); err != nil {
+		return nil, err
+	}
+
 	// We know the JSON must be valid here.
 	eventJSON = CanonicalJSONAssumeValid(eventJSON)
 
